@@ -63,8 +63,9 @@ func (a Any) ReferenceOrigins(ctx context.Context) reference.Origins {
 			Elems: make([]schema.Constraint, len(elemTypes)),
 		}
 		for i, elemType := range elemTypes {
-			cons.Elems[i] = schema.LiteralType{
-				Type: elemType,
+			// any expression of the element's type (as for list, set and map elements)
+			cons.Elems[i] = schema.AnyExpression{
+				OfType: elemType,
 			}
 		}
 
@@ -101,11 +102,19 @@ func (a Any) ReferenceOrigins(ctx context.Context) reference.Origins {
 			return a.refOriginsForNonComplexExpr(ctx)
 		}
 
+		// any expression of the attribute's type (as for list, set and map elements)
+		attributes := ctyObjectToObjectAttributes(typ)
+		for name, attrType := range typ.AttributeTypes() {
+			attributes[name].Constraint = schema.AnyExpression{
+				OfType: attrType,
+			}
+		}
+
 		obj := Object{
 			expr:    a.expr,
 			pathCtx: a.pathCtx,
 			cons: schema.Object{
-				Attributes:            ctyObjectToObjectAttributes(typ),
+				Attributes:            attributes,
 				AllowInterpolatedKeys: true,
 			},
 		}
